@@ -11,8 +11,8 @@ from vlib.wsgi import make_environ, call_app
 ID = 'C20'
 LEVEL = 'exploration'
 RULE = ('case = (error kind in {404, 404 next to an existing wildcard route (doubled / trailing slashes, extra segment, other case), 405 (literal and wildcard route), 400 malformed chunked body, 400 undecodable path, 500 handler crash whose exception text is the payload, '
-        'last-resort critical-error page (custom error handler that raises / unknown charset)}, payload placed in the path, the query string, Host and '
-        'X-Forwarded-Host, Accept = HTML or application/json, debug off). Payloads are built from fragments: marker markup <zqx>, closing tags of the '
+        'last-resort critical-error page (custom error handler that raises / unknown charset)}, payload placed in the path, the query string (also as the value of well-known keys such as callback / jsonp / format), Host, '
+        'X-Forwarded-Host and 16 other request headers (X-Request-ID, User-Agent, Referer, Cookie ...), Accept = HTML or application/json, debug off). Payloads are built from fragments: marker markup <zqx>, closing tags of the '
         'template, attribute breakers ("zqx"), percent-encoded and double-encoded markup (%3Czqx%3E, %253C..), pre-escaped entities, format-string '
         'syntax ({0}, {e.body}, {url}, %s), backslash escapes (\\\\x3c), quotes, NUL, non-ASCII, optionally padded to 300-5000 characters before or after the marker. Oracle for text/html bodies: the tag/attribute skeleton '
         'parsed with html.parser equals the skeleton of the same error kind for a benign request, and none of <zqx, zqx>, "zqx, zqx" occurs verbatim; '
@@ -23,7 +23,9 @@ ASSUMPTIONS = ['html.parser is the reference tokenizer for "injected markup"', '
 FRAGS = ['<zqx>', '</zqx>', '<zqx a="1">', '"zqx"', "'zqx'", '</tt>', '</pre>', '</title>', '<script>zqx</script>', '">', "'>", '%3Czqx%3E', '%3czqx%3e', '%22zqx%22',
          '%253Czqx%253E', '&lt;zqx&gt;', '&#60;zqx&#62;', '&quot;zqx&quot;', '{0}', '{e.body}', '{url}', '{exception}', '{e.__class__}', '%s', '%(url)s', '{', '}', '{{', '}}',
          '\\x3czqx\\x3e', '\\u003czqx\\u003e', '\\', 'a', 'b/c', ' ', '\0', 'é', '日本', '<', '>', '"', '&', '#', '?', '=', ';', '<!--', '-->', '<zqx', 'zqx>', '\n', '\r\n',
-         '<zqx\n>', '<ZQX>', 'javascript:zqx', '<img src=zqx onerror=zqx>']
+         '<zqx\n>', '<ZQX>', 'javascript:zqx', '<img src=zqx onerror=zqx>',
+         # fragments made only of characters that naive "safe token" validations let through
+         'abc<zqx/src=//x.example/y.js', 'id-1<zqx', 'a.b:c/d+e,f;g<zqx=1', '0<zqx', 'uuid-4f<zqx/onload=zqx', 'x<zqx,']
 _SHORT = st.lists(st.sampled_from(FRAGS), min_size=1, max_size=5).map(''.join)
 PAYLOAD = st.one_of(_SHORT, _SHORT, _SHORT,
                     st.tuples(_SHORT, st.sampled_from([300, 1100, 2100, 5000]), st.sampled_from(['a', '%41', 'é', '&'])).map(lambda t: t[0] + t[2] * t[1]),
@@ -93,8 +95,16 @@ def build_app(kind, payload):
     return app
 
 
+OTHER_HEADERS = ['X-Request-ID', 'X-Request-Id', 'X-Correlation-ID', 'User-Agent', 'Referer', 'Accept-Language', 'X-Forwarded-For', 'X-Forwarded-Proto', 'Origin', 'Cookie',
+                 'X-Real-IP', 'Traceparent', 'X-Amzn-Trace-Id', 'Authorization', 'Content-Type', 'Via']
+QUERY_KEYS = ['callback', 'jsonp', 'cb', 'format', 'debug', 'lang', 'redirect', 'next', '_', 'q']
+
+
 def make_request(kind, payload, where, accept):
     qs = payload if 'query' in where else 'a=1'
+    for w in where:
+        if w.startswith('qkey:'):
+            qs = w[5:] + '=' + payload + ('&' + qs if 'query' in where else '')
     headers = {}
     if accept:
         headers['Accept'] = accept
@@ -107,6 +117,9 @@ def make_request(kind, payload, where, accept):
         headers['Host'] = 'h' + payload
     if 'xfh' in where and l1 and not any(c in payload for c in '\r\n\0'):
         headers['X-Forwarded-Host'] = 'x' + payload
+    for w in where:
+        if w.startswith('hdr:') and l1 and not any(c in payload for c in '\r\n\0'):
+            headers[w[4:]] = payload
     if any(c in qs for c in '\r\n') or not l1:
         qs = qs.replace('\r', '%0D').replace('\n', '%0A').encode('utf8').decode('latin1')
     ppart = payload if 'path' in where else 'plain'
@@ -140,7 +153,7 @@ def benign_skeleton(kind, accept):
     key = (kind, accept)
     if key not in _BENIGN:
         app = build_app(kind, 'benign')
-        env, _ = make_request(kind, 'benign', ('path', 'query', 'host'), accept)
+        env, _ = make_request(kind, 'benign', ('path', 'query', 'host') + tuple('hdr:' + h for h in OTHER_HEADERS) + tuple('qkey:' + k for k in QUERY_KEYS[:1]), accept)
         r = call_app(app, env)
         _BENIGN[key] = (skeleton(r.body.decode('utf8', 'replace'))[0], r.header('Content-Type'))
     return _BENIGN[key]
@@ -187,7 +200,7 @@ def check_case(ctx, case):
         raise CheckFailure(f'{kind}: error page has Content-Type {ct!r} (accept {accept!r})')
     ctx.count('kind_' + kind)
     for w in where:
-        ctx.count('payload_in_' + w)
+        ctx.count('payload_in_' + w.split(':')[0])
     dec = unquote(unquote(payload))
     hot = any(c in payload for c in '<>"{%') or dec != payload
     if '%3' in payload.lower() or '%2' in payload.lower():
@@ -200,7 +213,9 @@ def check_case(ctx, case):
 
 CASE = st.fixed_dictionaries({
     'kind': st.sampled_from(KINDS), 'payload': PAYLOAD,
-    'where': st.lists(st.sampled_from(['path', 'query', 'host', 'xfh']), min_size=1, max_size=4, unique=True).map(sorted),
+    'where': st.lists(st.one_of(st.sampled_from(['path', 'query', 'host', 'xfh']), st.sampled_from(['path', 'query', 'host', 'xfh']),
+                               st.sampled_from(OTHER_HEADERS).map(lambda h: 'hdr:' + h), st.sampled_from(QUERY_KEYS).map(lambda k: 'qkey:' + k)),
+                      min_size=1, max_size=4, unique=True).map(sorted),
     'accept': st.sampled_from([None, None, 'text/html', 'application/json', '*/*']),
 })
 
@@ -216,6 +231,12 @@ def run(ctx):
                 for where in (['path'], ['query'], ['host'], ['xfh'], ['path', 'query', 'host']):
                     for accept in (None, 'application/json'):
                         ctx.guarded(check_case, {'kind': kind, 'payload': p, 'where': where, 'accept': accept})
+        # every other request header and a set of well-known query keys as carrier, HTML and JSON rendering
+        for kind in ('404', '405', '500', '400-chunked'):
+            for p in ['<zqx>', 'abc<zqx/src=//x.example/y.js', '"zqx"', '0<zqx', '</script><zqx>']:
+                for carrier in ['hdr:' + h for h in OTHER_HEADERS] + ['qkey:' + k for k in QUERY_KEYS]:
+                    for accept in (None, 'application/json'):
+                        ctx.guarded(check_case, {'kind': kind, 'payload': p, 'where': [carrier], 'accept': accept})
         ctx.count('payload_grid')
     n = 3000 if ctx.tier == 'quick' else 30000
     ctx.hyp(CASE, check_case, n)
